@@ -10,6 +10,8 @@ TRUST = ("Trusted base: the API-server / kubelet / cache models of internal/worl
 
 # id -> (cmd, category, technique, text, design_ref, note)
 CHECKS = {
+ "C20": ("c20", "model_checking", "stateless exploration of all schedules of the real watch relay under a controlled scheduler (testing/synctest), plus a free-running -race pass",
+         "Every prefix of every schedule (offer / source close / consumer receive / consumer Stop x2) up to length 9 (11 thorough) for every event sequence up to length 3 over {Added, Modified, Deleted, Bookmark, Error} is executed on the real hijack watch with the relay goroutine run to its next blocking point after each action; order, content, Error relay, closure after stop/source end and goroutine leaks are judged on each.", "4/C20", TRUST),
  "C08": ("c08", "model_checking", "explicit-state search over edit histories of the real reconciler + bounded-exhaustive template generator",
          "All edit histories up to depth 5 (7 thorough) over template/replicas/slot/pause/label edits interleaved with reconcile and kubelet steps, from seeds including an engineered name collision, deduplicated by canonical state; after every successful reconcile the update revision must reproduce the template through the real ApplyRevision, known templates are re-used and renumbered on top, non-template edits never move it, colliding revisions are never overwritten. A reflective PodTemplateSpec generator feeds one set per template.", "4/C08", TRUST),
  "C09": ("c09", "fault_enumeration", "exhaustive fault/crash-point enumeration over every API call of every explored state, with recovery-equivalence on the SCC graph",
@@ -63,11 +65,11 @@ def main():
         cmd, cat, tech, text, ref, note = CHECKS[pid]
         checks.append({
             "property_id": pid,
-            "quick_cmd": f"VERIF_TIER=quick scripts/run.sh {cmd}",
-            "thorough_cmd": f"VERIF_TIER=thorough scripts/run.sh {cmd}",
+            "quick_cmd": f"VERIF_TIER=quick scripts/run.sh {cmd}" if cmd != "c20" else "VERIF_TIER=quick scripts/run_c20.sh",
+            "thorough_cmd": f"VERIF_TIER=thorough scripts/run.sh {cmd}" if cmd != "c20" else "VERIF_TIER=thorough scripts/run_c20.sh",
             "evidence_file": f"/verif/evidence/{pid}.json",
             "replay_cmd_template": "scripts/run.sh replay {path}",
-            "engine": "check",
+            "engine": "check" if cmd != "c20" else "watchmc",
             "level_claimed": {"category": cat, "text": text, "design_ref": "DESIGN.md section " + ref},
             "level_note": note,
             "technique": tech,
@@ -85,8 +87,10 @@ def main():
             "add_only": True,
         },
         "engines": [
-            {"name": "check", "path": "/verif/cmd/check", "serves_properties": sorted(CHECKS),
+            {"name": "check", "path": "/verif/cmd/check", "serves_properties": sorted(p for p in CHECKS if p != "C20"),
              "kind_free_text": "hand-written explicit-state explorer around the real controller: closed world (API model, caches, environment), snapshot enumerator, deviation-bounded search with SCC analysis, fault/crash enumerator"},
+            {"name": "watchmc", "path": "/verif/watchmc", "serves_properties": ["C20"],
+             "kind_free_text": "stateless schedule exploration of the hijacked watch under a controlled scheduler built on testing/synctest (go1.26), run as a test binary"},
         ],
         "checks": checks,
         "not_applicable": na,
